@@ -9,7 +9,7 @@ import c14
 
 CHECKS = {}
 CHECKS["RAFT"] = raftfamily.check_all
-for _p in ("C02", "C03", "C06", "C07", "C18"):
+for _p in ("C02", "C03", "C06", "C07", "C18", "C17"):
     CHECKS[_p] = raftfamily.check
 CHECKS["C19"] = c19.check
 CHECKS["C05"] = rsmchecks.check_c05
